@@ -43,6 +43,14 @@ CHECKS = {
                 text="Proved from the real source of build/tracked_dfg.py for all tables, commands and metadata: track_wire appends and returns the new slot (no freed slot is ever reused), tracked_wire / untrack_wire denote the most recent wire at the index (Python index meaning) and raise IndexError exactly for untracked indices leaving the table unchanged, TrackedDfg.add makes exactly the call the explicit program makes (same operation, the wires tracked at the integer arguments in argument order, other wires as given, the same metadata - a genuine defect here was repaired) and rebinds exactly the named slots to the new node's output at the argument position (loop invariant over a ghost 'last naming position'), set_indexed_outputs passes the resolved wires in order. track_wires / track_inputs / __init__ / set_tracked_outputs / extend and the node-for-node, link-for-link comparison of the tracked and the explicit HUGR are decided by a bounded run of the real builders against the explicit program and a shadow table - not proved; hence category other.",
                 note=TRUST + "; DfBase.add_op and Dfg.set_outputs trusted as call recorders (ghost trace); wires restricted to Node | OutPort values.",
                 technique="contract-based deductive verification (postconditions over the table view + ghost call trace, loop invariant with a ghost recursion), z3 cross-checked by z3-4.8.12/cvc5; bounded differential run for the remaining entry points"),
+    "C02": dict(cat="other", design="5/C02",
+                text="Proved on the real bodies: every operation, type, type argument, parameter and value class decodes back to an equal object (per-class encode/decode lemmas, shared with C05), and the port offsets written for an edge (_constrain_offset / _order_port_offset) are a function of the operation's signature only - the same function the loader uses to recognise order edges. The whole-graph statement (load succeeds, identical document on re-serialization, same encoded operation / hierarchy with child order / metadata / multiset of links per port incl. order links, through the renumbering) is decided by a bounded run over builder programs of all seven builder kinds followed by delete / insert-with-index-reuse / metadata / arbitrary-link histories against an oracle written from the statement - not proved, hence category other. Three genuine defects were repaired (sibling order after index reuse, order edges at operations without an order port, plus the earlier metadata / renumbering fixes); one inherent conflict is a listed known finding (renumbering cannot be order-preserving when index order contradicts the hierarchy).",
+                note=TRUST + "; Hugr._to_serial / _from_serial loops not under contract (bounded only); pydantic dump/validate assumed inverse.",
+                technique="contract-based deductive verification of the per-class codecs and the port-offset functions (z3, cross-checked) + labelled bounded model-based round-trip run for the whole-graph clauses"),
+    "C03": dict(cat="other", design="5/C03",
+                text="Proved for all complete operations: a value port is addressed by its offset = its position in the operation's signature; the static function / constant input sits immediately after the value inputs (Call._function_port_offset and the port kinds of Call / LoadFunc / LoadConst, shared with C06); a state-order edge is addressed at the first port after those, in both directions, by _order_port_offset and Hugr._constrain_offset - their postconditions mention the signature only, never the number of connected ports (a genuine defect here was repaired earlier). Index sanity of whole documents (node 0 root and own parent, parents listed earlier, endpoints exist) after deletions and index reuse, and validity of every emitted HUGR / package / extension document against the published strict schema (jsonschema) are decided by a bounded run - not proved; hence category other.",
+                note=TRUST + "; sig_in/sig_out ghost definition (interface contract, C06); AsExtOp.outer_signature trusted; incomplete operations outside the domain (may_raise).",
+                technique="contract-based deductive verification of the port-addressing functions (z3, cross-checked) + labelled bounded run with an independent oracle and JSON-schema validation of emitted documents"),
     "C04": dict(cat="other", design="5/C04",
                 text="The graph store is verified against a sequence-per-port view: sub-offset allocation, add_link (the link is appended exactly once to the sequences of both ports; BiMap inverse and contiguity invariants preserved; counts = max), add_order_link (idempotent; order ports are not counted), linked_ports / has_link / order-link listings / outgoing_links / incoming_links as functions of the view (one entry per port whatever the rest of the graph holds), lookup (KeyError exactly for non-live indices), iteration (live indices ascending), counts, children, add_node / add_const (new index was free, every other node keeps index and data), _update_port_count. delete_link, delete_node and insert_hugr are decided by a bounded model-based run of the real code against the sequential multigraph model of the statement (all queries compared after every operation) - not proved; hence category other. Three genuine defects were found and repaired.",
                 note=TRUST + "; BiMap through its C18 contracts; ghost cnt defined by an assumed instance; generator functions eager; _add_node verified in the thorough tier only.",
